@@ -143,6 +143,7 @@ def run(ctx):
         ctx.fail(kind, what, inp, impl, expected)
 
     # ================================================================ closed-form 1-d rules
+    if os.environ.get("VERIF_DEBUG"): sys.stderr.write("[%6.1fs] closed-form 1-d rules\n" % (__import__("time").time() - ctx.t0))
     cases, meta = [], []
     for name, fn, n0, deg in (("qnwtrap", Q.qnwtrap, 2, 1), ("qnwsimp", Q.qnwsimp, 2, 3)):
         for n in range(n0, 31):
@@ -166,6 +167,7 @@ def run(ctx):
     queue("closed_form_1d", "bool * nat * Q * Q * list Q * list Q", ok, cases, meta, "C08.Model.qnwtrap1/qnwsimp1 vs quad._qnwtrap1/_qnwsimp1", 40, "")
 
     # ================================================================ closed-form tensor products
+    if os.environ.get("VERIF_DEBUG"): sys.stderr.write("[%6.1fs] closed-form tensor products\n" % (__import__("time").time() - ctx.t0))
     cases, meta = [], []
     shapes = [(2, 2), (3, 2), (2, 3), (3, 3), (30, 2), (2, 30), (7, 30), (5, 5), (2, 2, 2), (3, 2, 4), (4, 3, 2), (2, 5, 3),
               (30, 3, 5), (3, 3, 3), (9, 2, 30)]
@@ -210,6 +212,7 @@ def run(ctx):
     queue("closed_form_tensor", "bool * list (nat * Q * Q) * list (list Q) * list Q", ok, cases, meta, "C08.Model.make_multidim (gridmake / reversed ckron) vs quad._make_multidim_func", 6, "")
 
     # ================================================================ _ce_util.gridmake / ckron directly (integer data: exact)
+    if os.environ.get("VERIF_DEBUG"): sys.stderr.write("[%6.1fs] _ce_util.gridmake / ckron directly (inte\n" % (__import__("time").time() - ctx.t0))
     from quantecon._ce_util import gridmake as ce_gridmake, ckron as ce_ckron
     gcases_, gmeta_ = [], []
     for _ in range(25 * reps):
@@ -231,6 +234,7 @@ def run(ctx):
     queue("ce_util", "list (list Q) * list (list Q) * list Q", ok, gcases_, gmeta_, "C08.Model.gridmake/ckron vs _ce_util.gridmake/ckron", 30)
 
     # ================================================================ Gauss-Legendre: kernel, affine map, qnwunif, tensor
+    if os.environ.get("VERIF_DEBUG"): sys.stderr.write("[%6.1fs] Gauss-Legendre: kernel, affine map, qnwu\n" % (__import__("time").time() - ctx.t0))
     kcases, kmeta, acases, ameta, tcases, tmeta, ucases, umeta, rcases, rmeta = [], [], [], [], [], [], [], [], [], []
     std = {}
     for n in range(1, 31):
@@ -326,6 +330,7 @@ def run(ctx):
     queue("qnwunif_weights", "list Q * list Q * list Q * list Q", ok, ucases, umeta, "C08.Model.unif_weights vs quad.qnwunif", 30, "")
 
     # ================================================================ qnwnorm / qnwlogn
+    if os.environ.get("VERIF_DEBUG"): sys.stderr.write("[%6.1fs] qnwnorm / qnwlogn\n" % (__import__("time").time() - ctx.t0))
     hcases, hmeta, ncases, nmeta, mcases, mmeta = [], [], [], [], [], []
     for n in range(1, 31):
         x, w = Q.qnwnorm(n)
@@ -416,6 +421,7 @@ def run(ctx):
     queue("qnwnorm_map", "list (list Q) * list (list Q) * list Q * list (list Q)", ok, mcases, mmeta, "C08.Model.norm_map (nodes.R + mu) vs quad.qnwnorm", 6, "")
 
     # ================================================================ qnwbeta / qnwgamma
+    if os.environ.get("VERIF_DEBUG"): sys.stderr.write("[%6.1fs] qnwbeta / qnwgamma\n" % (__import__("time").time() - ctx.t0))
     bcases, bmeta, gcases, gmeta = [], [], [], []
     for n in range(1, 31):
         for rep in range(2 * reps):
@@ -476,6 +482,7 @@ def run(ctx):
                 fail("tensor_order", "%s weight r is not the product of the 1-d weights of node row r" % name, inp)
 
     # ================================================================ qnwequi, qnwcheb, quadrect
+    if os.environ.get("VERIF_DEBUG"): sys.stderr.write("[%6.1fs] qnwequi, qnwcheb, quadrect\n" % (__import__("time").time() - ctx.t0))
     ecases, emeta, qcases, qmeta = [], [], [], []
     for _ in range(40 * reps):
         d = rng.choice([1, 1, 2, 3])
@@ -551,7 +558,17 @@ def run(ctx):
           "Qle_bool (Qabs (quadrect (fun row => cs + monomial es row) xs ws - out)) (%s * scale)" % T12)
     queue("quadrect", "list nat * Q * list (list Q) * list Q * Q * Q", ok, qcases, qmeta, "C08.Model.quadrect vs quad.quadrect", 20, "From Coq Require Import Qabs.")
 
+    # all Coq cases are queued by now: evaluate them in the background while the Python-only oracles below run
+    from concurrent.futures import ThreadPoolExecutor as _TPE
+
+    def _one(job):
+        name, ctype, ok, cases, meta, label, chunk, preamble = job
+        return job, ctx.coq_check(name, IMPORTS, ctype, ok, cases, chunk=chunk, preamble=preamble)
+    _ex = _TPE(max_workers=4)
+    futures = [_ex.submit(_one, job) for job in jobs]
+
     # ================================================================ argument forms of the multi-dimensional rules
+    if os.environ.get("VERIF_DEBUG"): sys.stderr.write("[%6.1fs] argument forms of the multi-dimensional \n" % (__import__("time").time() - ctx.t0))
     # the docs promise that scalar endpoints / parameters are repeated d times: n per dimension as list / tuple / array,
     # a and b scalar / vector / mixed must all give the rule obtained with fully vectorised arguments, whose mass is
     # checked against the exact volume (or 1) and, for the product rules, against the tensor product of the 1-d rules
@@ -703,13 +720,209 @@ def run(ctx):
             if not okf:
                 fail("argument_form", "qnwnorm/qnwlogn(%s): mass / mean / covariance not reproduced or qnwlogn not the exponential image" % label, inp)
 
-    from concurrent.futures import ThreadPoolExecutor as _TPE
+    # ================================================================ hardening: dress / sequences / non-mutation / optional arguments / edges
+    if os.environ.get("VERIF_DEBUG"): sys.stderr.write("[%6.1fs] hardening: dress / sequences / non-mutat\n" % (__import__("time").time() - ctx.t0))
+    import copy
+    i32, i64, ip, u8, f32, f64 = np.int32, np.int64, np.intp, np.uint8, np.float32, np.float64
 
-    def _one(job):
-        name, ctype, ok, cases, meta, label, chunk, preamble = job
-        return job, ctx.coq_check(name, IMPORTS, ctype, ok, cases, chunk=chunk, preamble=preamble)
-    with _TPE(max_workers=4) as ex:
-        results = list(ex.map(_one, jobs))
+    def tup_of(r):
+        return r if isinstance(r, tuple) else (r,)
+
+    def same_result(r1, r2, rtol=0.0):
+        r1, r2 = tup_of(r1), tup_of(r2)
+        if len(r1) != len(r2):
+            return False
+        for u, v in zip(r1, r2):
+            u, v = np.asarray(u), np.asarray(v)
+            if u.shape != v.shape or u.dtype != v.dtype:
+                return False
+            if not (np.array_equal(u, v) if rtol == 0 else np.allclose(u, v, rtol=rtol, atol=rtol)):
+                return False
+        return True
+
+    def harden(cls, name, desc, canon, variant, rtol=0.0, snapshot=()):
+        """variant() must return exactly what canon() returns; any exception is an oracle failure; objects in
+        `snapshot` (the variant's argument containers) must be unchanged afterwards"""
+        inp = {"call": name, "variant": desc, "class": cls}
+        ctx.case(("harden", cls, name, desc), nontrivial=True)
+        ctx.count("%s:%s" % (cls, name))
+        before = copy.deepcopy(list(snapshot))
+        try:
+            with quiet_stdout():
+                r1 = canon()
+                r2 = variant()
+        except Exception as e:
+            fail("hardening_exception", "%s (%s): raises %r on a valid input" % (name, desc, e), inp)
+            return None
+        if not same_result(r1, r2, rtol):
+            fail("hardening_" + cls.split(":")[0], "%s: %s differs from the canonical float64/int call" % (name, desc), inp,
+                 [np.asarray(v).ravel()[:4].tolist() for v in tup_of(r2)], [np.asarray(v).ravel()[:4].tolist() for v in tup_of(r1)])
+        for b_, a_ in zip(before, snapshot):
+            if not (np.array_equal(np.asarray(b_), np.asarray(a_)) and type(b_) is type(a_)):
+                fail("hardening_mutation", "%s (%s): an argument was modified by the call" % (name, desc), inp)
+        return r2
+    rules_ab = ["qnwlege", "qnwcheb", "qnwtrap", "qnwsimp", "qnwunif"]
+    for rep in range(reps):
+        n1 = rng.randrange(3, 9)
+        a1 = rng.randrange(-8, 8) / 4.0
+        b1 = a1 + rng.choice([0.25, 0.5, 1.0, 3.0])
+        nd = [rng.randrange(2, 6) for _ in range(rng.choice([2, 3]))]
+        d = len(nd)
+        ad = [rng.choice([0.0, rng.randrange(-8, 8) / 4.0]) for _ in range(d)]       # zero endpoints: falsy but valid
+        bd = [x + rng.choice([0.5, 1.0, 2.0]) for x in ad]
+        big = np.arange(40, dtype=float).reshape(4, 10)
+        for nm in rules_ab:
+            fn = getattr(Q, nm)
+            # ---- class 1: integer / float dress of scalars
+            # np.int64 / np.intp / np.float64 share the compiled signature of the canonical call; each of the other
+            # dresses costs one numba specialisation, so the quick tier draws one of them per rule and run (all in thorough)
+            ai, bi = int(math.floor(a1)), int(math.floor(a1)) + rng.choice([1, 2, 3])
+            cheap = [("n np.int64", i64(n1), a1, b1), ("n np.intp, a,b np.float64", ip(n1), f64(a1), f64(b1))]
+            costly = [("n np.int32, a np.float32, b float", i32(n1), f32(a1), b1), ("n np.uint8", u8(n1), a1, b1),
+                      ("int endpoints", n1, ai, bi), ("np.int64 endpoints incl. 0", n1, i64(0), i64(bi - ai))]
+            for lab, nn, aa, bb in cheap + (costly if thorough else [rng.choice(costly)]):
+                harden("dress:scalar", nm, lab, lambda nn=nn, aa=aa, bb=bb: fn(int(nn), float(aa), float(bb)), lambda nn=nn, aa=aa, bb=bb: fn(nn, aa, bb))
+            # ---- class 1: array dress (lists, tuples, dtypes, views, F-order) in d dimensions
+            col = np.zeros((d, 3))
+            col[:, 1] = ad
+            fb = np.asfortranarray(np.vstack([bd, bd]).T)
+            for lab, nn, aa, bb in (("tuple / list / tuple", tuple(nd), list(ad), tuple(bd)),
+                                    ("int32 array n, float32 a, float64 b", np.array(nd, dtype=i32), np.array(ad, dtype=f32), np.array(bd, dtype=f64)),
+                                    ("int64 n, non-contiguous views", np.repeat(np.array(nd, dtype=i64), 2)[::2], col[:, 1], fb[:, 0]),
+                                    ("uint8 n, list of np.float32", np.array(nd, dtype=u8), [f32(v) for v in ad], [f64(v) for v in bd])):
+                snap = [nn, aa, bb]
+                harden("dress:array", nm, lab, lambda: fn(list(nd), list(ad), list(bd)), lambda nn=nn, aa=aa, bb=bb: fn(nn, aa, bb), snapshot=snap)
+            # ---- class 2: repeated calls with other parameters in between (jit specialisations, module-level state)
+            r0 = fn(n1, a1, b1) if nm != "qnwsimp" else None
+            def seq(fn=fn):
+                first = fn(n1, a1, b1)
+                fn(n1 + 2, a1 - 1, b1 + 1)
+                fn(list(nd), list(ad), list(bd))
+                fn(i64(n1 + 1), f64(a1), b1)
+                return fn(n1, a1, b1)
+            out = harden("seq:interleaved", nm, "same call after three other calls", lambda: fn(n1, a1, b1), seq)
+            # ---- class 3: results of successive calls do not alias each other
+            with quiet_stdout():
+                x1, w1 = fn(n1, a1, b1)
+                keep = (x1.copy(), w1.copy())
+                x2, w2 = fn(n1, a1, b1)
+                x2[...] = -77.0
+                w2[...] = -77.0
+                x3, w3 = fn(n1, a1, b1)
+            ctx.case(("harden", "alias", nm, n1, a1, b1), nontrivial=True)
+            ctx.count("alias:%s" % nm)
+            if np.shares_memory(x1, x3) or np.shares_memory(w1, w3) or not (np.array_equal(x1, keep[0]) and np.array_equal(w1, keep[1])
+                                                                             and np.array_equal(x3, keep[0]) and np.array_equal(w3, keep[1])):
+                fail("hardening_mutation", "%s: results of successive calls alias each other (overwriting one changes another)" % nm, {"call": nm, "n": n1, "a": a1, "b": b1})
+            # ---- class 5: tiny interval, interval touching 0
+            for lab, aa, bb in (("width 2^-20", a1, a1 + 2.0 ** -20), ("[0, b]", 0.0, b1 - a1), ("[a, 0]", a1 - b1, 0.0)):
+                ctx.case(("harden", "edge", nm, lab, n1), nontrivial=True)
+                ctx.count("edge:%s" % nm)
+                try:
+                    with quiet_stdout():
+                        x, w = fn(n1, aa, bb)
+                    mass = Fraction(1) if nm == "qnwunif" else Fraction(bb) - Fraction(aa)
+                    # 1e-8: with width 2^-20 the spacing nodes[1]-nodes[0] carries the cancellation error of the endpoints
+                    if not (all(Fraction(aa) <= v <= Fraction(bb) for v in fl(x)) and abs(sum(fl(w)) - mass) <= Fraction(1, 10**8) * mass and all(v > 0 for v in fl(w))):
+                        fail("hardening_edge", "%s on %s: nodes outside the interval / wrong mass / non-positive weight" % (nm, lab), {"call": nm, "n": n1, "a": aa, "b": bb})
+                except Exception as e:
+                    fail("hardening_exception", "%s on %s raises %r" % (nm, lab, e), {"call": nm, "n": n1, "a": aa, "b": bb})
+        # ---- qnwcheb / qnwbeta / qnwgamma defaults (class 4), integer and float32 parameters (class 1)
+        harden("opt:default", "qnwcheb", "a, b omitted vs a=1, b=1", lambda: Q.qnwcheb(n1, 1, 1), lambda: Q.qnwcheb(n1))
+        harden("opt:default", "qnwbeta", "a, b omitted vs 1.0, 1.0", lambda: Q.qnwbeta(n1, 1.0, 1.0), lambda: Q.qnwbeta(n1))
+        harden("opt:default", "qnwgamma", "a, b, tol omitted vs 1.0, 1.0, 3e-14", lambda: Q.qnwgamma(n1, 1.0, 1.0, 3e-14), lambda: Q.qnwgamma(n1))
+        pa, pb = rng.choice([1, 2, 3, 5]), rng.choice([1, 2, 4])
+        for nm in ("qnwbeta", "qnwgamma"):
+            fn = getattr(Q, nm)
+            costly = [("int parameters", n1, pa, pb), ("np.int64 n, np.int32 parameters", i64(n1), i32(pa), i32(pb)), ("np.uint8 n, np.float32 parameters", u8(n1), f32(pa), f32(pb))]
+            for lab, nn, aa, bb in [("np.intp n, np.float64 parameters", ip(n1), f64(pa), f64(pb)), ("keywords", n1, float(pa), float(pb))] + (costly if thorough else [rng.choice(costly)]):
+                if lab == "keywords":
+                    harden("opt:keyword", nm, lab, lambda: fn(n1, float(pa), float(pb)), lambda: fn(n=n1, a=float(pa), b=float(pb)))
+                else:
+                    harden("dress:scalar", nm, lab, lambda: fn(n1, float(pa), float(pb)), lambda nn=nn, aa=aa, bb=bb: fn(nn, aa, bb))
+            pav, pbv = [rng.choice([1.0, 0.5, 2.5]) for _ in nd], [rng.choice([1.0, 2.0, 0.75]) for _ in nd]
+            snap = [np.array(nd, dtype=i32), np.array(pav, dtype=f32), tuple(pbv)]
+            harden("dress:array", nm, "int32 n, float32 a, tuple b", lambda: fn(list(nd), pav, pbv), lambda: fn(snap[0], snap[1], snap[2]), snapshot=snap)
+            harden("seq:interleaved", nm, "same call after other parameters", lambda: fn(n1, 2.5, 0.75),
+                   lambda: (fn(n1, 2.5, 0.75), fn(n1 + 3, 0.5, 4.0), fn(list(nd), pav, pbv), fn(n1, 2.5, 0.75))[3])
+            # parameters next to the special value 1 (uniform / exponential)
+            for eps in (1e-6, -1e-6):
+                ctx.case(("harden", "edge", nm, eps, n1), nontrivial=True)
+                ctx.count("edge:%s" % nm)
+                try:
+                    x, w = fn(n1, 1.0 + eps, 1.0)
+                    x0, w0 = fn(n1, 1.0, 1.0)
+                    if not (np.allclose(x, x0, atol=1e-4) and np.allclose(w, w0, atol=1e-4) and abs(w.sum() - 1) < 1e-6):
+                        fail("hardening_edge", "%s with a = 1%+g is not close to a = 1" % (nm, eps), {"call": nm, "n": n1, "a": 1.0 + eps, "b": 1.0})
+                except Exception as e:
+                    fail("hardening_exception", "%s(a=1%+g) raises %r" % (nm, eps, e), {"call": nm, "n": n1, "a": 1.0 + eps, "b": 1.0})
+        # ---- qnwnorm / qnwlogn: mu, sig2 as ints / float32 / nested lists / views, defaults, falsy mu = 0, non-mutation of sig2
+        mu1, s1 = rng.randrange(-3, 4), rng.choice([1, 4, 9])
+        for nm in ("qnwnorm", "qnwlogn"):
+            fn = getattr(Q, nm)
+            sc = 1.0 if nm == "qnwnorm" else 1.0 / 16
+            costly = [("np.int32 n, np.int64 mu, np.int32 sig2", i32(n1), i64(mu1), i32(s1)), ("np.uint8 n, np.float32 mu, sig2", u8(n1), f32(mu1), f32(s1))]
+            for lab, nn, mm, ss in [("int mu, int sig2", n1, mu1, s1), ("1-element lists", [n1], [mu1], [[s1]])] + (costly if thorough else [rng.choice(costly)]):
+                harden("dress:scalar", nm, lab, lambda: fn(n1, float(mu1), float(s1)), lambda nn=nn, mm=mm, ss=ss: fn(nn, mm, ss))
+            harden("opt:default", nm, "mu, sig2 omitted vs None, None", lambda: fn(n1, None, None), lambda: fn(n1))
+            harden("opt:falsy", nm, "mu = 0, sig2 = 1 vs omitted", lambda: fn(n1), lambda: fn(n1, 0, 1))
+            harden("opt:falsy", nm, "mu = 0.0 vector vs None (d dims)", lambda: fn(list(nd)), lambda: fn(list(nd), [0.0] * d, np.eye(d)))
+            Ui = np.triu(np.array([[rng.randrange(-2, 3) for _ in range(d)] for _ in range(d)]))
+            for i in range(d):
+                Ui[i, i] = rng.randrange(1, 3)
+            Si = (Ui.T @ Ui)
+            mui = [rng.randrange(-2, 3) for _ in range(d)]
+            canon = lambda: fn(list(nd), [float(v) for v in mui], Si.astype(float))
+            bigS = np.zeros((2 * d, 2 * d))
+            bigS[::2, ::2] = Si
+            for lab, nn, mm, ss in (("int mu list, nested int list sig2", list(nd), list(mui), Si.tolist()), ("int32 n, int64 mu array, int64 sig2 array", np.array(nd, dtype=i32), np.array(mui), Si.copy()),
+                                    ("float32 mu, F-ordered sig2", tuple(nd), np.array(mui, dtype=f32), np.asfortranarray(Si.astype(float))),
+                                    ("non-contiguous sig2 view", list(nd), tuple(mui), bigS[::2, ::2])):
+                harden("dress:array", nm, lab, canon, lambda nn=nn, mm=mm, ss=ss: fn(nn, mm, ss), snapshot=[nn, mm, ss])
+            if nm == "qnwnorm":
+                harden("opt:default", nm, "usesqrtm omitted vs False", lambda: fn(list(nd), mui, Si, False), lambda: fn(list(nd), mui, Si))
+                harden("opt:keyword", nm, "usesqrtm=True by keyword vs position", lambda: fn(list(nd), mui, Si, True), lambda: fn(list(nd), mu=mui, sig2=Si, usesqrtm=True))
+            harden("seq:interleaved", nm, "same call after other parameters", canon, lambda: (fn(n1, 1.0, 4.0), fn(list(nd)), canon())[2])
+        # ---- qnwequi: dress, kind case, equidist_pp given, seed forms, reuse of one RandomState
+        import sympy as _sym
+        pp = np.sqrt(np.array(list(_sym.primerange(0, 7920))))
+        for kind in "NWHR":
+            canon = lambda: Q.qnwequi(n1, a1, b1, kind, random_state=5)
+            for lab, var in (("np.int32 n, int/float32 endpoints, np.int64 seed", lambda: Q.qnwequi(i32(n1), f64(a1), f32(b1), kind, random_state=i64(5))),
+                             ("lower-case kind", lambda: Q.qnwequi(n1, a1, b1, kind.lower(), random_state=5)),
+                             ("equidist_pp supplied explicitly", lambda: Q.qnwequi(n1, a1, b1, kind, pp, 5)),
+                             ("RandomState(5) instead of 5", lambda: Q.qnwequi(n1, a1, b1, kind, random_state=np.random.RandomState(5)))):
+                harden("dress:scalar" if "np." in lab else "opt:explicit", "qnwequi", "%s, kind %s" % (lab, kind), canon, var)
+            snap = [np.array(nd, dtype=i32), tuple(ad), np.array(bd, dtype=f32)]
+            harden("dress:array", "qnwequi", "int32 n, tuple a, float32 b, kind %s" % kind, lambda: Q.qnwequi(list(nd), list(ad), list(bd), kind, random_state=7),
+                   lambda: Q.qnwequi(snap[0], snap[1], snap[2], kind, random_state=7), snapshot=snap)
+            harden("seq:interleaved", "qnwequi", "same call after other kinds / sizes, kind %s" % kind, canon,
+                   lambda: (Q.qnwequi(n1 + 1, a1, b1, "N"), Q.qnwequi(list(nd), ad, bd, "H"), Q.qnwequi(3, 0, 1, "R", random_state=1), canon())[3])
+        # ---- quadrect: dress, kind case, default kind, args / kwargs forwarded to f
+        def poly(x):
+            return x ** 2 + 1.0
+
+        def poly_args(x, c, p=1, shift=0.0):
+            return c * x ** p + shift
+        harden("opt:default", "quadrect", "kind omitted vs 'lege'", lambda: Q.quadrect(poly, n1, a1, b1, "lege"), lambda: Q.quadrect(poly, n1, a1, b1))
+        for kind in ("lege", "cheb", "trap", "simp", "N", "W", "H", "R"):
+            nq = n1 if kind != "simp" or n1 % 2 else n1 + 1
+            canon = lambda: Q.quadrect(poly, nq, a1, b1, kind, random_state=3)
+            harden("dress:scalar", "quadrect", "np.int32 n, float32 / np.float64 endpoints, np.int64 seed, kind %s" % kind, canon,
+                   lambda: Q.quadrect(poly, i32(nq), f32(a1), f64(b1), kind, i64(3)) if (thorough or kind in "NWHR") else Q.quadrect(poly, i64(nq), f64(a1), f64(b1), kind, i64(3)))
+            harden("opt:explicit", "quadrect", "kind in other letter case (%s)" % kind, canon,
+                   lambda: Q.quadrect(poly, nq, a1, b1, kind.upper() if len(kind) > 1 else kind.lower(), 3))
+            harden("opt:args", "quadrect", "extra positional and keyword arguments reach f, kind %s" % kind,
+                   lambda: 2.0 * Q.quadrect(poly, nq, a1, b1, kind, 3) + 0.0, lambda: Q.quadrect(poly_args, nq, a1, b1, kind, 3, 2.0, p=2, shift=2.0),
+                   rtol=1e-12)
+            harden("opt:falsy", "quadrect", "falsy extra arguments (c=1.0, p=2, shift=0.0) reach f, kind %s" % kind,
+                   lambda: Q.quadrect(lambda x: x ** 2, nq, a1, b1, kind, 3), lambda: Q.quadrect(poly_args, nq, a1, b1, kind, 3, 1.0, p=2, shift=0.0), rtol=1e-12)
+        harden("dress:array", "quadrect", "d dimensions: int32 n, tuple a, float32 b",
+               lambda: Q.quadrect(lambda x: x.sum(axis=1), list(nd), list(ad), list(bd), "lege"),
+               lambda: Q.quadrect(lambda x: x.sum(axis=1), np.array(nd, dtype=i32), tuple(ad), np.array(bd, dtype=f32), "lege"))
+
+    results = [f_.result() for f_ in futures]       # Coq correspondence checks started before the Python-only sections
+    _ex.shutdown()
     for (name, ctype, ok, cases, meta, label, chunk, preamble), bad in results:
         for i in bad:
             ctx.mismatch(label, meta[i])
